@@ -216,7 +216,10 @@ def shards(tier):
                         continue
                 else:
                     fixed.update(c0=1)
-                out.append(dict(name=f'concurrent/{fixed}', harness='concurrent', fixed=fixed, budget_s=400 if tier == 'quick' else 2400))
+                for cb in (False, True):
+                    for poke in ((False, True) if launcher else (False,)):
+                        fx = dict(fixed, cb=cb, poke=poke)
+                        out.append(dict(name=f'concurrent/{fx}', harness='concurrent', fixed=fx, budget_s=400 if tier == 'quick' else 2400))
     return out
 
 
